@@ -255,6 +255,40 @@ Definition chk_life (t : (bool * list lop) * list lobs) : bool :=
 
 Definition life_model_chk (t : (bool * list lop) * list lobs) : bool := chk_life (fst t, lrun (fst t)).
 
+(* ---- calls through a handle that is not open (C13) ---- *)
+(* the handle a call goes through *)
+Definition op_handle (o : lop) : option nat :=
+  match o with
+  | LCreateColl h _ | LStart _ h _ _ | LWrite h _ | LDrop h _ => Some h
+  | _ => None
+  end.
+
+(* the handles that may still be open, as the checker remembers them from the calls and their answers alone *)
+Definition open_after (opn : list nat) (o : lop) (ok : bool) : list nat :=
+  match o with
+  | LOpenHandle h => if ok then h :: opn else opn
+  | LClose h => filter (fun x => negb (Nat.eqb x h)) opn
+  | LCloseAndDelete _ => if ok then [] else opn
+  | _ => opn
+  end.
+
+(* a call - create / drop a collection, write, start a feed of any kind - through a handle that was never
+   opened, has been closed, or whose bucket has been deleted, fails *)
+Fixpoint cwalk (opn : list nat) (ops : list lop) (obs : list lobs) : bool :=
+  match ops, obs with
+  | [], [] => true
+  | o :: os, ob :: obs' =>
+      match op_handle o with
+      | Some h => existsb (Nat.eqb h) opn || negb (lo_ok ob)
+      | None => true
+      end
+      && cwalk (open_after opn o (lo_ok ob)) os obs'
+  | _, _ => false
+  end.
+
+Definition chk_life_C13 (t : (bool * list lop) * list lobs) : bool :=
+  chk_life t && cwalk [] (snd (fst t)) (snd t).
+
 (* ---- theorems about the model ---- *)
 (* what a step does to one feed: one of five functions, or nothing *)
 Definition feed_step_fns : list (lfeed -> lfeed) := [deliver1; end1; block1; release1; fun f => f].
@@ -431,3 +465,78 @@ Proof.
     destruct (lf_dump y); cbn; rewrite ?He, ?Eg; auto.
   - unfold running, release1. destruct (lf_gate y) as [| |p [|]] eqn:Eg; cbn; rewrite ?He, ?Eg; cbn; auto; contradiction.
 Qed.
+
+(* ---- a handle that is not open (C13) ---- *)
+Lemma not_open_fails s o h : op_handle o = Some h -> handle_open s h = false -> lstep s o = (s, false).
+Proof.
+  intros Ho Hh. destruct o; cbn in Ho; try discriminate; inversion Ho; subst; cbn [lstep]; rewrite Hh; reflexivity.
+Qed.
+
+Lemma existsb_nat_filter h k l : h <> k -> existsb (Nat.eqb h) l = true ->
+  existsb (Nat.eqb h) (filter (fun x => negb (Nat.eqb x k)) l) = true.
+Proof.
+  intros Hne. induction l as [|a r IH]; cbn; [auto|].
+  destruct (Nat.eqb_spec h a) as [<-|Hha]; cbn.
+  - intros _. destruct (Nat.eqb_spec h k) as [E|_]; [contradiction|]. cbn. rewrite Nat.eqb_refl. reflexivity.
+  - intros H. destruct (negb (Nat.eqb a k)); cbn; [|auto].
+    destruct (Nat.eqb_spec h a) as [E|_]; [contradiction|]. cbn. auto.
+Qed.
+
+Definition covers (s : lstate) (opn : list nat) : Prop := forall h, handle_open s h = true -> existsb (Nat.eqb h) opn = true.
+
+Lemma nat_eqb_iff a b : Nat.eqb a b = true <-> a = b.
+Proof. apply Nat.eqb_eq. Qed.
+
+Lemma covers_step s opn o : covers s opn -> covers (fst (lstep s o)) (open_after opn o (snd (lstep s o))).
+Proof.
+  intros Hc. unfold covers in *.
+  assert (Hsame : forall s', ls_alive s' = ls_alive s -> ls_handles s' = ls_handles s ->
+            forall h, handle_open s' h = true -> existsb (Nat.eqb h) opn = true).
+  { intros s' Ha Hh h. unfold handle_open. rewrite Ha, Hh. apply Hc. }
+  destruct o; cbn [lstep open_after].
+  - destruct (ls_alive s) eqn:Ea; cbn [fst snd]; [|exact Hc].
+    intros h'. unfold handle_open. cbn [ls_alive ls_handles andb].
+    destruct (Nat.eqb_spec h' h) as [->|Hne]; [intros _; cbn; rewrite Nat.eqb_refl; reflexivity|].
+    rewrite (alookup_aset_other Nat.eqb nat_eqb_iff _ _ _ _ Hne). intros H. cbn.
+    destruct (Nat.eqb_spec h' h) as [E|_]; [contradiction|]. cbn. apply Hc. unfold handle_open. rewrite Ea. exact H.
+  - destruct (handle_open s h && negb (coll_exists s c)); cbn [fst snd]; [apply Hsame; reflexivity | exact Hc].
+  - destruct (handle_open s h && coll_exists s c); cbn [fst snd]; [apply Hsame; reflexivity | exact Hc].
+  - destruct (handle_open s h && coll_exists s c); cbn [fst snd]; [apply Hsame; reflexivity | exact Hc].
+  - cbn [fst snd]. apply Hsame; reflexivity.
+  - destruct (handle_open s h && coll_exists s c && negb (String.eqb c "_default._default")); cbn [fst snd]; [apply Hsame; reflexivity | exact Hc].
+  - assert (Hk : forall s', (ls_alive s' = true -> ls_alive s = true) ->
+               (forall h', h' <> h -> alookup Nat.eqb h' (ls_handles s') = alookup Nat.eqb h' (ls_handles s)) ->
+               handle_open s' h = false ->
+               forall h', handle_open s' h' = true -> existsb (Nat.eqb h') (filter (fun x => negb (Nat.eqb x h)) opn) = true).
+    { intros s' Ha Hl Hcl h' Ho. destruct (Nat.eq_dec h' h) as [->|Hne]; [rewrite Hcl in Ho; discriminate|].
+      apply existsb_nat_filter; [exact Hne|]. apply Hc. unfold handle_open in *.
+      apply andb_true_iff in Ho. destruct Ho as [Ho1 Ho2]. rewrite (Ha Ho1). rewrite <- (Hl _ Hne). exact Ho2. }
+    destruct (alookup Nat.eqb h (ls_handles s)) as [[|]|] eqn:El.
+    + destruct ((open_count s =? 1)%nat && negb (ls_inmem s) && ls_alive s); cbn [fst snd]; apply Hk; cbn [ls_alive ls_handles];
+        try discriminate; try (intros; apply (alookup_aset_other Nat.eqb nat_eqb_iff); assumption); try tauto;
+        unfold handle_open; cbn [ls_alive ls_handles]; rewrite ?(alookup_aset_same Nat.eqb nat_eqb_iff); rewrite ?andb_false_r; reflexivity.
+    + cbn [fst snd]. apply Hk; [tauto | reflexivity | unfold handle_open; rewrite El; apply andb_false_r].
+    + cbn [fst snd]. apply Hk; [tauto | reflexivity | unfold handle_open; rewrite El; apply andb_false_r].
+  - destruct (alookup Nat.eqb h (ls_handles s)); cbn [fst snd]; [|exact Hc].
+    intros h'. unfold handle_open. cbn [ls_alive andb]. discriminate.
+  - cbn [fst snd]. apply Hsame; reflexivity.
+  - cbn [fst snd]. apply Hsame; reflexivity.
+Qed.
+
+Lemma cwalk_model ops : forall s opn, covers s opn -> cwalk opn ops (lrun_from s ops) = true.
+Proof.
+  induction ops as [|o r IH]; intros s opn Hc; cbn [lrun_from cwalk]; [reflexivity|].
+  pose proof (covers_step s opn o Hc) as Hn.
+  destruct (lstep s o) as [s' ok] eqn:Es. cbn [fst snd] in Hn. cbn [cwalk lobserve lo_ok].
+  apply andb_true_iff. split; [|apply IH; exact Hn].
+  destruct (op_handle o) as [h|] eqn:Eo; [|reflexivity].
+  destruct (existsb (Nat.eqb h) opn) eqn:Ex; [reflexivity|]. cbn.
+  assert (Hh : handle_open s h = false).
+  { destruct (handle_open s h) eqn:E; [|reflexivity]. rewrite (Hc _ E) in Ex. discriminate. }
+  rewrite (not_open_fails _ _ _ Eo Hh) in Es. inversion Es; subst. reflexivity.
+Qed.
+
+(* in every history of the model, every call through a handle that is not open fails (and, by not_open_fails,
+   changes nothing) *)
+Theorem not_open_calls_fail inmem ops : cwalk [] ops (lrun (inmem, ops)) = true.
+Proof. unfold lrun. cbn [fst snd]. apply cwalk_model. intros h H. unfold handle_open, lstate0 in H. cbn in H. discriminate. Qed.
